@@ -34,6 +34,14 @@ fn main() {
         std::panic::set_hook(Box::new(|_| {}));
     }
     match args[1].as_str() {
+        "c23-child" => {
+            let k: i64 = args[4].parse().unwrap_or(-1);
+            props::publish::c23_child(&args[2], &args[3], k);
+        }
+        "c23-gen-child" => {
+            let stage: u32 = args[3].parse().unwrap_or(0);
+            props::publish::c23_gen_child(&args[2], stage, args[4] == "abort");
+        }
         "c29-child" => {
             let ei: usize = args[2].parse().unwrap_or_else(|_| usage());
             let c: usize = args[3].parse().unwrap_or_else(|_| usage());
@@ -112,6 +120,7 @@ fn dispatch(ctx: &Ctx) -> bool {
         "C20" => props::poolprops::run(ctx, props::poolprops::Which::C20),
         "C21" => props::poolprops::run(ctx, props::poolprops::Which::C21),
         "C22" => props::poolprops::run(ctx, props::poolprops::Which::C22),
+        "C23" => props::publish::run(ctx),
         "C28" => props::config::run_c28(ctx),
         "C29" => props::config::run_c29(ctx),
         "C25" => props::encodings::run_c25(ctx),
@@ -151,6 +160,7 @@ fn run_replay(id: &str, path: &PathBuf) -> i32 {
         Some(k) if k.starts_with("c25_") || k.starts_with("c26_") || k.starts_with("c27_") => props::encodings::replay(case),
         Some(k) if k.starts_with("c28_") || k.starts_with("c29") => props::config::replay(case),
         Some(k) if k.starts_with("c35_") => props::jsonprops::replay(case),
+        Some("c23") | Some("c23_gen") => props::publish::replay(case),
         Some("pool_history") => props::poolprops::replay(case, id),
         Some("c24") | Some("c24_pilen") => props::parsers::replay(case),
         other => Err(format!("no replay handler for kind {:?}", other)),
